@@ -1,4 +1,5 @@
 import A2Verif.Lemmas.Minify
+import A2Verif.Model.MinifyVars
 /-!
 # C17 — Minification keeps the program valid and referentially intact
 
@@ -242,6 +243,35 @@ theorem lits_preserved (cfg : Cfg) (level : Nat) (p : List Line) (out : List Gro
   have := deleted_line_rem l hl
   simpa [Line.dels, hcfg] using this
 
+/-- **DATA payloads cannot be extended**: once `DATA` really forbids combining the next line
+(`dataForbids`), nothing is ever appended to a line that contains a `DATA` statement (an
+unterminated string at the end of the payload would swallow the appended statements). -/
+theorem data_line_ends_group (cfg : Cfg) (level : Nat) (p : List Line) (out : List Group)
+    (hcfg : cfg.dataForbids = true) (h : minify cfg level p = .ok out) :
+    ∀ g ∈ out, ∀ l ∈ p, l.data = true → l.num ∉ g.members.dropLast := by
+  intro g hg l hl hd hmem
+  have hF : l.num ∈ fnextSet cfg p := by
+    simp only [fnextSet, List.mem_map, List.mem_filter]
+    exact ⟨l, ⟨hl, by simp [hcfg, hd]⟩, rfl⟩
+  unfold minify at h
+  split at h
+  · cases h
+  · split at h
+    · cases h
+      exact stage3_fnext _ _ _ g hg _ hmem hF
+    · cases h
+      obtain ⟨l', _, rfl⟩ := List.mem_map.mp hg
+      simp [Group.single, Group.members] at hmem
+
+/-- as written, `10 DATA "ABC` / `20 PRINT` becomes one line at level 3 (the PRINT disappears into
+the string) -/
+example : minify Cfg.asWritten 3
+    [⟨10, false, false, [], false, true, false, [1], 11, false⟩, ⟨20, false, false, [], false, false, false, [], 7, false⟩]
+    = .ok [⟨10, [20], [], [1], 17⟩] := by decide
+example : minify Cfg.fixed 3
+    [⟨10, false, false, [], false, true, false, [1], 11, false⟩, ⟨20, false, false, [], false, false, false, [], 7, false⟩]
+    = .ok [⟨10, [], [], [1], 11⟩, ⟨20, [], [], [], 7⟩] := by decide
+
 /-! ## The code as written violates the property (DESIGN §9 item 24) -/
 
 /-- `10 GOSUB 20 / 15 X=1 / 20 REM SUB / 30 PRINT / 40 RETURN` -/
@@ -292,5 +322,100 @@ example : minify Cfg.fixed 2 witnessFinalRem = .ok [⟨10, [], [], [], 7⟩, ⟨
 /-- non-vacuity of `ref_integrity`: a program with a chain of deleted REM targets -/
 example : ∃ out, Asc witnessMerged ∧ minify Cfg.fixed 3 witnessMerged = .ok out ∧ Resolves out :=
   ⟨_, by unfold Asc; decide, rfl, by decide⟩
+
+/-! ## Variable shortening -/
+section Vars
+open A2Verif.Model.MinifyVars A2Verif.Gen.MinifyGuards
+
+theorem drop_pred_length {txt : List Nat} (h : 0 < txt.length) :
+    ∃ y, txt.drop (txt.length - 1) = [y] := by
+  have hl : (txt.drop (txt.length - 1)).length = 1 := by simp; omega
+  match hd : txt.drop (txt.length - 1), hl with
+  | [y], _ => exact ⟨y, rfl⟩
+
+/-- **Two-character rule**: shortening never changes the identity Applesoft gives a variable (first
+two characters, case-insensitively, and type), whatever `needs_guard` answered. -/
+theorem short_keeps_sig (k : Kind) (g : Bool) (txt : List Nat) :
+    nameSig k (shortName k g txt) = nameSig k txt := by
+  have key : ∀ t : List Nat, 3 < t.length →
+      ((t.take 2 ++ t.drop (t.length - 1)).dropLast.take 2) = t.dropLast.take 2 := by
+    intro t ht
+    obtain ⟨y, hy⟩ := drop_pred_length (txt := t) (by omega)
+    rw [hy, List.dropLast_concat, List.dropLast_eq_take, List.take_take, List.take_take]
+    congr 1
+    omega
+  cases k with
+  | real =>
+    simp only [shortName, nameSig]
+    split
+    · split
+      · simp [List.take_take]
+      · split <;> simp [List.take_take]
+    · rfl
+  | str =>
+    simp only [shortName, nameSig]
+    split
+    · rename_i h; rw [key txt h]
+    · rfl
+  | int =>
+    simp only [shortName, nameSig]
+    split
+    · rename_i h; rw [key txt h]
+    · rfl
+
+/-- … and keeps the type suffix character -/
+theorem short_keeps_suffix (k : Kind) (g : Bool) (txt : List Nat) :
+    suffix k (shortName k g txt) = suffix k txt := by
+  have key : ∀ t : List Nat, 3 < t.length →
+      (t.take 2 ++ t.drop (t.length - 1)).drop ((t.take 2 ++ t.drop (t.length - 1)).length - 1)
+        = t.drop (t.length - 1) := by
+    intro t ht
+    obtain ⟨y, hy⟩ := drop_pred_length (txt := t) (by omega)
+    rw [hy]
+    have : (t.take 2).length = 2 := by simp; omega
+    simp [this]
+  cases k with
+  | real => simp [suffix]
+  | str =>
+    simp only [shortName, suffix]
+    split
+    · rename_i h; exact key txt h
+    · rfl
+  | int =>
+    simp only [shortName, suffix]
+    split
+    · rename_i h; exact key txt h
+    · rfl
+
+/-- **Distinct variables stay distinct** (and equal ones stay equal) under the two-character rule -/
+theorem short_distinct (k k' : Kind) (g g' : Bool) (a b : List Nat) :
+    nameSig k (shortName k g a) = nameSig k' (shortName k' g' b) ↔ nameSig k a = nameSig k' b := by
+  rw [short_keeps_sig, short_keeps_sig]
+
+/-- `SCALE` and `SCORE` are one variable for Applesoft, before and after; `SCALE`/`SUM` are two -/
+example : nameSig .real (shortName .real false [83, 67, 65, 76, 69])
+    = nameSig .real (shortName .real false [83, 67, 79, 82, 69]) := by decide
+example : nameSig .real (shortName .real false [83, 67, 65, 76, 69])
+    ≠ nameSig .real (shortName .real false [83, 85, 77]) := by decide
+
+/-- the written text is the shortened name, or that name in parentheses -/
+theorem shortText_cases (k : Kind) (g : Bool) (txt : List Nat) :
+    shortText k g txt = shortName k g txt ∨ shortText k g txt = [40] ++ shortName k g txt ++ [41] := by
+  unfold shortText
+  split
+  · rename_i h
+    right
+    obtain ⟨rfl, h2, rfl, h4⟩ := h
+    simp [shortName, h2, h4]
+  · left; rfl
+
+/-- the table is consulted case-insensitively -/
+theorem needsGuard_lower (txt : List Nat) (f : Tok) :
+    needsGuard (txt.map lower) f = needsGuard txt f := by
+  have : ∀ c, lower (lower c) = lower c := by
+    intro c; unfold lower; split <;> (try split) <;> (try rfl) <;> omega
+  simp [needsGuard, ← List.map_take, List.map_map, Function.comp_def, this]
+
+end Vars
 
 end A2Verif.C17
